@@ -321,6 +321,37 @@ func rnsMachine(rt *rapid.T, c *chain.Chain, wts rnsWeights, oracle func(*rnsWor
 			to := w.drawAcc(rt, "to")
 			check(w.run("transfer", s, sp, rnstypes.NewMsgTransfer(s.Bech, sp, to.Bech), func(st *rnsStep) { st.Receiver = to.Bech }))
 		},
+		// one transaction whose last message fails: what its first message did (a transfer by the owner, or a bid) is
+		// discarded with it, in the store and everywhere else
+		"rolledBackBatch": func(rt *rapid.T) {
+			key := w.drawCanon(rt)
+			s := w.drawSigner(rt, key)
+			to := w.drawAcc(rt, "to")
+			var first sdk.Msg = rnstypes.NewMsgTransfer(s.Bech, key, to.Bech)
+			what := "transfer to " + short(to.Bech)
+			if rapid.Bool().Draw(rt, "bidInstead") {
+				coin := drawCoin(rt, "bid")
+				first, what = rnstypes.NewMsgBid(s.Bech, key, coin), "bid "+coin.String()
+			}
+			failing := rnstypes.NewMsgTransfer(s.Bech, "no-such-name-at-all.jkl", to.Bech)
+			st := &rnsStep{Kind: "rolled-back transaction", Signer: s.Bech, Name: key, Key: key, Height: w.f.Height()}
+			st.NamesBefore, st.BalBefore, st.BidsBefore = w.names(), w.f.Snapshot(), w.openBids()
+			st.Res = w.f.ExecAtomic(first, failing)
+			st.NamesAfter, st.BalAfter, st.BidsAfter = w.names(), w.f.Snapshot(), w.openBids()
+			w.logf("one transaction by acc%d: %s of %q, then a message that fails -> %s", s.Index, what, key, st.Res)
+			if st.Res.OK() {
+				failf(rt, rec, "C08/harness", w.trace, "the batch was meant to fail")
+			}
+			for k, b := range st.NamesBefore {
+				if st.NamesAfter[k] != b {
+					failf(rt, rec, "C08/failed-message-changed-name", w.trace, "a transaction that failed as a whole changed %s: %+v -> %+v", k, b, st.NamesAfter[k])
+				}
+			}
+			if len(st.BidsBefore) != len(st.BidsAfter) || len(st.BalBefore.Diff(st.BalAfter)) != 0 {
+				failf(rt, rec, "C09/failed-message-moved-funds", w.trace, "a transaction that failed as a whole changed bids or balances: %v", st.BalBefore.Diff(st.BalAfter))
+			}
+			rec.Count("rolled-back-transactions")
+		},
 		"update": func(rt *rapid.T) {
 			key := w.drawCanon(rt)
 			s := w.drawSigner(rt, key)
